@@ -74,8 +74,8 @@ class InternalGate(ops.Gate):
             custom_args = f", custom_args={self.custom_args}"
 
         return (
-            f"cirq_google.InternalGate(gate_name='{self.gate_name}', "
-            f"gate_module='{self.gate_module}', "
+            f"cirq_google.InternalGate(gate_name={self.gate_name!r}, "
+            f"gate_module={self.gate_module!r}, "
             f"num_qubits={self._num_qubits}"
             f"{custom_args}"
             f"{gate_args})"
